@@ -1131,14 +1131,50 @@ impl Property for C11 {
                 }
             }
         }
+        // STOP with the cursor mid-line, column-sensitive items right behind it: after CONT the cursor
+        // is where the break report left it (column 0), not where the program had it
+        let mut planted_stop = false;
+        if !prog.lines.is_empty() && !cfg.tron && rng.pct(15) {
+            let at = rng.usize(prog.lines.len());
+            if !matches!(prog.lines[at].stmts.last(), Some(Stmt::If { .. }))
+                && !prog.lines[at].stmts.iter().any(|s| matches!(s, Stmt::Rem(..) | Stmt::Data(_)))
+            {
+                let mut extra = vec![
+                    Stmt::Print {
+                        q: false,
+                        items: vec![PItem::E(Expr::Str("MID".repeat(1 + rng.usize(4)))), PItem::Semi],
+                    },
+                    Stmt::Stop,
+                    Stmt::Print {
+                        q: false,
+                        items: vec![
+                            PItem::E(Expr::Call(Builtin::Pos, vec![Expr::Int(0)])),
+                            PItem::Semi,
+                            PItem::E(Expr::Call(Builtin::Tab, vec![Expr::Int(10)])),
+                            PItem::Semi,
+                            PItem::E(Expr::Str("|".into())),
+                            PItem::Comma,
+                            PItem::E(Expr::Str("|".into())),
+                        ],
+                    },
+                ];
+                planted_stop = true;
+                extra.extend(print_line(rng));
+                let pos = rng.usize(prog.lines[at].stmts.len() + 1);
+                prog.lines[at].stmts.splice(pos..pos, extra);
+            }
+        }
         let mut case = base_case(rng, prog, "C11");
         if rng.pct(25) {
             case.session.push(Step::Direct(print_line(rng)));
         }
         case.session.push(Step::Direct(vec![Stmt::Run(None)]));
-        let steps = rng.below(6) as usize;
+        let steps = rng.below(6) as usize + if planted_stop { 2 } else { 0 };
         let tron = cfg.tron;
         grow(rng, &mut case, steps, |rng, _case, last, _i| {
+            if matches!(last, Some(Ended::Break)) && !tron && (planted_stop || rng.pct(50)) {
+                return Some(Step::Direct(vec![Stmt::Cont]));
+            }
             Some(match rng.below(10) {
                 0..=3 => Step::Direct(print_line(rng)),
                 4 => {
